@@ -502,12 +502,12 @@ def language_of(D, el):
 
 def rfc4647_extended(rng, tag):
     """RFC 4647 section 3.3.2, with the two conventions of the property text for '' and '*'."""
-    if rng == '' or tag == '':
-        return rng == '' and tag == ''
     r = [x.lower() for x in rng.split('-')]
     t = [x.lower() for x in tag.split('-')]
-    if '' in r or '' in t:
+    if (rng != '' and '' in r) or (tag != '' and '' in t):
         return None                      # malformed range or tag (an empty subtag): not judged
+    if rng == '' or tag == '':
+        return rng == '' and tag == ''
     if r[0] != '*' and r[0] != t[0]:
         return False
     ri, ti = 1, 1
